@@ -637,8 +637,8 @@ def run(coro):
 # deterministic classifier of an input (used in violation signatures, so that a known finding only masks itself)
 # ------------------------------------------------------------------------------------------------------------
 def trigger_of(proto: str, data: bytes) -> str:
-    """"priority_chain_deep": the HTTP/2 input builds a PRIORITY dependency chain at least 900 streams deep (F44);
-    "h2c_bad_settings": an HTTP/1 h2c upgrade request whose HTTP2-Settings value is not a base64url SETTINGS payload (F43)"""
+    """"h2c_bad_settings": an HTTP/1 h2c upgrade request whose HTTP2-Settings value is not a base64url SETTINGS payload (F43).
+    (F44 is recognised from the taps: `next(self.priority)` raised RecursionError.)"""
     import base64
     import re
     if proto == "h1":
@@ -652,28 +652,4 @@ def trigger_of(proto: str, data: bytes) -> str:
                 ok = False
             if not ok:
                 return "h2c_bad_settings"
-        return "other"
-    # HTTP/2: walk the frames that can be parsed, follow PRIORITY dependencies
-    pos = data.find(PREFACE)
-    pos = pos + len(PREFACE) if pos >= 0 else 0
-    parent: Dict[int, int] = {}
-    while pos + 9 <= len(data):
-        length = int.from_bytes(data[pos:pos + 3], "big")
-        typ = data[pos + 3]
-        sid = int.from_bytes(data[pos + 5:pos + 9], "big") & 0x7FFFFFFF
-        body = data[pos + 9:pos + 9 + length]
-        if len(body) < length:
-            break
-        if typ == 2 and length == 5:
-            parent[sid] = int.from_bytes(body[:4], "big") & 0x7FFFFFFF
-        pos += 9 + length
-    depth: Dict[int, int] = {}
-    best = 0
-    for sid in parent:
-        d, x, seen = 0, sid, set()
-        while x in parent and x not in seen and d < 2000:
-            seen.add(x)
-            x = parent[x]
-            d += 1
-        best = max(best, d)
-    return "priority_chain_deep" if best >= 900 else "other"
+    return "other"
